@@ -144,7 +144,7 @@ let run_case (line : string) : string =
   | [ "c15h"; calls ] ->
     "r=" ^ String.concat "," (List.map c15_call (String.split_on_char ',' calls)) ^ "|alive=1"
   | [ "c15h" ] -> "r=-|alive=1"
-  | "stress_shutdown" :: _ -> "OK"
+  | ("stress_shutdown" | "stress_cleanup") :: _ -> "OK"
   | _ -> "BADCASE"
 
 (* ---- monitors ---- *)
@@ -158,6 +158,9 @@ let mon_c14 (case : string list) (result : string) : string =
      with Dead what -> "FAIL daemon thread " ^ what)
   | [ "stress_shutdown"; _; _; _ ] ->
     if result = "OK" || starts_with result "OK " then "PASS" else "FAIL " ^ result
+  | "stress_cleanup" :: _ ->
+    (* every accepted call must be answered or closed once the daemon has ended *)
+    if result = "OK" then "PASS" else "FAIL " ^ result
   | _ -> "BADCASE"
 
 (* C15: no PANIC/HANG result; for simulated histories additionally the daemon survived and
